@@ -8,7 +8,9 @@
   A block may name an item several times (the same item under complementary `cfg` attributes): the code enters
   the items into look-up tables in which a repeated name overwrites (`itemMap`, `Validate.lean`); the section
   "Repeated item names" states what that means. On blocks without repeated names nothing differs
-  (`C14_no_repeats_table_is_block`).
+  (`C14_no_repeats_table_is_block`). In inherent mode BOTH blocks are turned into tables since /repo 133a44b (before, the
+  first block was walked as a slice and a first block that repeated a name was rejected): `C14_inherent_first_block_table`,
+  `C14_inherent_items_ok_iff_tables`; an unsupported item of the first block gives "Not supported" while its table is built.
   Family level: the first failing check determines the diagnostic; header checks come before item checks.
 
   Definitions used in the statements (`Lemmas/ValidateLemmas.lean`, all executable or decidable):
@@ -57,10 +59,21 @@ theorem C14_const_arity (ts l1 l2 : List ItemSig) (s s' : ItemSig) (hts : cleanI
 
 /-! ## Item level, inherent mode -/
 
-/-- `compare_inherent_items` is `compare_trait_items` without defaults, with its own messages -/
+/-- `compare_inherent_items` is `compare_trait_items` without defaults, with its own messages; the TABLE of the first
+    block (`itemMap fs`: one entry per name) plays the trait's item list, and an unsupported item of the first block gives
+    "Not supported" before anything is compared (/repo 133a44b). No side condition.
+    (Before 133a44b the statement was `… = inhResult (compareTraitItems (fs.map ItemSig.strict) second)` for every `fs`;
+    that is `C14_inherent_as_trait_clean` now, under `cleanItems fs`.) -/
 theorem C14_inherent_as_trait (fs second : List ItemSig) :
-    compareInherentItems fs second = inhResult (compareTraitItems (fs.map ItemSig.strict) second) :=
+    compareInherentItems fs second =
+      if fs.any (fun i => i.kind = .other) then .error .notSupported
+      else inhResult (compareTraitItems ((itemMap fs).map ItemSig.strict) second) :=
   compareInherentItems_eq fs second
+
+/-- on a clean first block (no unsupported item, no repeated name): the first block itself plays the trait's item list -/
+theorem C14_inherent_as_trait_clean (fs second : List ItemSig) (hf : cleanItems fs = true) :
+    compareInherentItems fs second = inhResult (compareTraitItems (fs.map ItemSig.strict) second) :=
+  compareInherentItems_eq_of_clean hf second
 
 theorem C14_inherent_items_ok_iff (fs second : List ItemSig) (hf : cleanItems fs = true)
     (hs : cleanItems second = true) :
@@ -255,11 +268,16 @@ theorem C14_all_ok_iff (trait_ : Option T) (fams : List (List T)) :
 /-! ## Repeated item names (one item under complementary `cfg` attributes) -/
 
 /-- a block without repeated (kind, name) pairs is its own look-up table: on such blocks the answers of
-    `compareTraitItems` / `compareInherentItems` are those of the plain loops over the block -/
+    `compareTraitItems` / `compareInherentItems` are those of the plain loops over the block. In inherent mode the FIRST
+    block `fs` is a table as well (/repo 133a44b): an unsupported item in it aborts, otherwise the loop runs over its
+    table — which is `fs` itself when `fs` is clean (last clause). -/
 theorem C14_no_repeats_table_is_block (xs : List ItemSig) (h : (xs.map ItemSig.key).Nodup) :
     itemMap xs = xs ∧ (∀ ts, compareTraitItems ts xs = compareTraitItemsLoop ts xs) ∧
-    (∀ fs, compareInherentItems fs xs = compareInherentItemsLoop fs xs) :=
-  ⟨itemMap_of_nodup h, fun ts => compareTraitItems_of_nodup ts h, fun fs => compareInherentItems_of_nodup fs h⟩
+    (∀ fs, compareInherentItems fs xs =
+      if fs.any (fun i => i.kind = .other) then .error .notSupported else compareInherentItemsLoop (itemMap fs) xs) ∧
+    (∀ fs, cleanItems fs = true → compareInherentItems fs xs = compareInherentItemsLoop fs xs) :=
+  ⟨itemMap_of_nodup h, fun ts => compareTraitItems_of_nodup ts h, fun fs => compareInherentItems_of_nodup fs h,
+    fun _ hf => compareInherentItems_of_clean_nodup hf h⟩
 
 /-- the look-up table of ANY block: no (kind, name) twice, exactly the names of the block, an unsupported item in the
     table iff one in the block -/
@@ -284,8 +302,8 @@ theorem C14_trait_items_ok_iff_any (ts second : List ItemSig) (hts : cleanItems 
       (∀ t ∈ ts, ∀ s ∈ itemMap second, t.kind = .const → s.kind = .const → s.ident = t.ident → t.arity = s.arity) :=
   compareTraitItems_ok_iff_map ts second hts
 
-/-- the same in inherent mode: the FIRST block is a slice (side condition: it is clean — a first block that repeats a name
-    is rejected, see the examples), the other block may repeat names -/
+/-- the same in inherent mode, for a clean FIRST block (side condition `cleanItems fs`; the other block may repeat names).
+    Without the side condition: `C14_inherent_items_ok_iff_tables` (the first block is read through its table, too). -/
 theorem C14_inherent_items_ok_iff_any (fs second : List ItemSig) (hf : cleanItems fs = true) :
     compareInherentItems fs second = .ok () ↔
       (∀ f ∈ fs, ∃ s ∈ itemMap second, s.kind = f.kind ∧ s.ident = f.ident) ∧
@@ -298,6 +316,49 @@ theorem C14_default_may_be_omitted_any (ts second : List ItemSig) (t : ItemSig) 
     (hok : compareTraitItems ts second = .ok ()) (ht : t ∈ ts)
     (hd : t.hasDefault = true) : compareTraitItems ts (dropItem t.kind t.ident second) = .ok () :=
   compareTraitItems_default_omitted ts second t hts hok ht hd
+
+/-! ## Inherent mode: the first block is a table, too (/repo 133a44b) -/
+
+/-- the first block counts through its look-up table only (one entry per (kind, name): position of the first copy, value of
+    the last). No side condition (an unsupported item is in the table iff it is in the block: both sides are
+    "Not supported" then). -/
+theorem C14_inherent_first_block_table (fs second : List ItemSig) :
+    compareInherentItems fs second = compareInherentItems (itemMap fs) second :=
+  compareInherentItems_first_table fs second
+
+/-- building the table twice changes nothing -/
+theorem C14_table_idempotent (xs : List ItemSig) : itemMap (itemMap xs) = itemMap xs := itemMap_idem xs
+
+/-- an unsupported item in the first block: "Not supported", whatever the other block is -/
+theorem C14_inherent_first_block_unsupported (fs second : List ItemSig)
+    (h : fs.any (fun i => i.kind = .other) = true) : compareInherentItems fs second = .error .notSupported :=
+  compareInherentItems_of_other h second
+
+/-- acceptance in inherent mode with NO condition on either block (repeated names and unsupported items allowed on both
+    sides): no unsupported item in the first block, and the characterisation of `C14_inherent_items_ok_iff` read on the two
+    look-up tables, i.e. on the last copy of every name of either block -/
+theorem C14_inherent_items_ok_iff_tables (fs second : List ItemSig) :
+    compareInherentItems fs second = .ok () ↔
+      fs.any (fun i => i.kind = .other) = false ∧
+      (∀ f ∈ itemMap fs, ∃ s ∈ itemMap second, s.kind = f.kind ∧ s.ident = f.ident) ∧
+      (∀ s ∈ itemMap second, ∃ f ∈ itemMap fs, f.kind = s.kind ∧ f.ident = s.ident) ∧
+      (∀ f ∈ itemMap fs, ∀ s ∈ itemMap second, f.kind = .const → s.kind = .const → s.ident = f.ident →
+        f.arity = s.arity) :=
+  compareInherentItems_ok_iff_tables fs second
+
+/-- `C14_inherent_missing` without the side condition on the first block: every copy of a name of the first block removed
+    from the other block gives "Not found in one of the impls" -/
+theorem C14_inherent_missing_any (fs second : List ItemSig) (f : ItemSig)
+    (hok : compareInherentItems fs second = .ok ()) (hf : f ∈ fs) :
+    compareInherentItems fs (dropItem f.kind f.ident second) = .error .notInOneImpl :=
+  compareInherentItems_missing_any fs second f hok hf
+
+/-- `C14_inherent_arity` without the side condition on the first block -/
+theorem C14_inherent_arity_any (fs l1 l2 : List ItemSig) (s s' : ItemSig)
+    (hcl : cleanItems (l1 ++ s :: l2) = true) (hok : compareInherentItems fs (l1 ++ s :: l2) = .ok ())
+    (hsk : s.kind = .const) (hk : s'.kind = s.kind) (hi : s'.ident = s.ident) (ha : s'.arity ≠ s.arity) :
+    compareInherentItems fs (l1 ++ s' :: l2) = .error .genericsMismatch :=
+  compareInherentItems_arity_any fs l1 l2 s s' hcl hok hsk hk hi ha
 
 /-! ## Non-vacuity -/
 
@@ -357,9 +418,10 @@ example :
     `impl Kita for S { #[cfg(any())] fn f() -> u8 { 0 } #[cfg(not(any()))] fn f() -> u8 { 1 } }` (validation sees the kind and
     the name of an item only, so both copies are the same `ItemSig`).
     Trait mode: ACCEPTED (no diagnostic), alone and next to a block with one `f`.
-    Inherent mode (the same items in `impl S { … }`): a FIRST block that names `f` twice asks for `f` twice and the other
-    block's table holds it once: "Not found in one of the impls" — also when the other block is the same block; a LATER
-    block that names `f` twice is accepted against a first block with one `f`; a family of one block is not compared. -/
+    Inherent mode (the same items in `impl S { … }`): since /repo 133a44b the FIRST block is a table as well, so a first
+    block that names `f` twice is ACCEPTED against a block with one `f` and against a block that names `f` twice (before
+    133a44b: "Not found in one of the impls" — `f` was asked for twice and found once); a LATER block that names `f` twice
+    is accepted against a first block with one `f`; a family of one block is not compared. -/
 example :
     let fnSig (x : String) : T := .node "Signature" [] [.node "None" [] [], .node "None" [] [], .node "None" [] [],
       .node "None" [] [], .node "Ident" [x] [], .node "G" [] [], .node "List" [] [], .node "None" [] [], .node "R" [] []]
@@ -381,8 +443,32 @@ example :
     validateAll (some tr) [[block kitaRef dup, block kitaRef dup]] = .ok () ∧
     validateInherentImpls [block (.node "None" [] []) dup] = .ok () ∧
     validateInherentImpls [block (.node "None" [] []) one, block (.node "None" [] []) dup] = .ok () ∧
-    validateInherentImpls [block (.node "None" [] []) dup, block (.node "None" [] []) dup] = .error .notInOneImpl ∧
-    validateInherentImpls [block (.node "None" [] []) dup, block (.node "None" [] []) one] = .error .notInOneImpl := by
+    validateInherentImpls [block (.node "None" [] []) dup, block (.node "None" [] []) dup] = .ok () ∧
+    validateInherentImpls [block (.node "None" [] []) dup, block (.node "None" [] []) one] = .ok () ∧
+    validateInherentImpls [block (.node "None" [] []) dup, block (.node "None" [] []) one, block (.node "None" [] []) []]
+      = .error .notInOneImpl := by
+  decide
+
+/-- the example of /repo 133a44b on real trees: first block `impl S { #[cfg(x)] fn name() {} #[cfg(not(x))] fn name() {} }`,
+    second block `impl S { fn name() {} }`: accepted (`.ok ()`), item comparison and whole family; with the blocks the other
+    way round as well; a second block without `name`, or with another function, is still rejected. -/
+example :
+    let fnSig (x : String) : T := .node "Signature" [] [.node "None" [] [], .node "None" [] [], .node "None" [] [],
+      .node "None" [] [], .node "Ident" [x] [], .node "G" [] [], .node "List" [] [], .node "None" [] [], .node "R" [] []]
+    let fnItem (cfg x : String) : T := .node "ImplItem::Fn" [] [.node "Ign" [] [.node "List" [] [.node cfg [] []]],
+      .node "Visibility::Inherited" [] [], .node "None" [] [], fnSig x, .node "Block" [] []]
+    let block (items : List T) : T := .node "ItemImpl" [] [.node "A" [] [], .node "None" [] [], .node "None" [] [],
+      .node "G" [] [], .node "None" [] [], .node "S" [] [], .node "List" [] items]
+    let first := block [fnItem "cfg(x)" "name", fnItem "cfg(not(x))" "name"]
+    let second := block [fnItem "none" "name"]
+    implItemSigs first = [⟨.fn, "name", 0, false⟩, ⟨.fn, "name", 0, false⟩] ∧
+    implItemSigs second = [⟨.fn, "name", 0, false⟩] ∧
+    compareInherentItems (implItemSigs first) (implItemSigs second) = .ok () ∧
+    validateInherentImpls [first, second] = .ok () ∧
+    validateInherentImpls [second, first] = .ok () ∧
+    validateAll none [[first, second]] = .ok () ∧
+    validateInherentImpls [first, block []] = .error .notInOneImpl ∧
+    validateInherentImpls [first, block [fnItem "none" "name", fnItem "none" "other"]] = .error .notInOneImpl := by
   decide
 
 example : insertItem [tA, cN 1, fD] (cN 0) = [tA, cN 0, fD] ∧ insertItem [tA, cN 1] fD = [tA, cN 1, fD] ∧
@@ -394,7 +480,31 @@ example : cleanItems [cN 0, tA, fD] = true ∧ compareTraitItems [cN 0, tA, fD] 
     dropItem .fn "f" [tA, cN 1, fD, tA, cN 0] = [tA, cN 1, tA, cN 0] ∧
     compareTraitItems [cN 0, tA, fD] [tA, cN 1, tA, cN 0] = .ok () ∧
     compareInherentItems [cN 0, tA] [tA, cN 1, tA, cN 0] = .ok () ∧
-    compareInherentItems [cN 0, tA, tA] [tA, cN 0] = .error .notInOneImpl := by decide
+    compareInherentItems [cN 0, tA, tA] [tA, cN 0] = .ok () := by decide
+
+/-- inherent mode, FIRST block repeats a name (/repo 133a44b): it counts through its table. The example of the commit
+    message on item signatures (`#[cfg(x)] fn name` / `#[cfg(not(x))] fn name` against one `fn name`): accepted; the last
+    copy's number of generic parameters counts; an unsupported item in the first block is "Not supported" even when a name
+    before it is missing from the other block; the hypotheses of `C14_inherent_missing_any` / `C14_inherent_arity_any` /
+    `C14_inherent_items_ok_iff_tables` on a first block that is not clean. -/
+example :
+    let fName : ItemSig := ⟨.fn, "name", 0, false⟩
+    let oth : ItemSig := ⟨.other, "", 0, false⟩
+    compareInherentItems [fName, fName] [fName] = .ok () ∧
+    compareInherentItems [fName, fName] [fName, fName] = .ok () ∧
+    compareInherentItems [fName, fName] [] = .error .notInOneImpl ∧
+    cleanItems [cN 1, tA, cN 0] = false ∧ itemMap [cN 1, tA, cN 0] = [cN 0, tA] ∧
+    compareInherentItems [cN 1, tA, cN 0] [tA, cN 0] = .ok () ∧
+    compareInherentItems [cN 0, tA, cN 1] [tA, cN 0] = .error .genericsMismatch ∧
+    compareInherentItems [cN 1, tA, cN 0] (dropItem .const "N" [tA, cN 0]) = .error .notInOneImpl ∧
+    cleanItems ([tA] ++ cN 0 :: []) = true ∧
+    compareInherentItems [cN 1, tA, cN 0] ([tA] ++ cN 2 :: []) = .error .genericsMismatch ∧
+    compareInherentItems [tA, oth] [] = .error .notSupported ∧
+    compareInherentItems [tA, oth] [tA, oth] = .error .notSupported ∧
+    compareInherentItemsLoop [tA, oth] [] = .error .notInOneImpl ∧
+    [cN 1, tA, cN 0].any (fun i => i.kind = .other) = false ∧
+    compareInherentItems [cN 1, tA, cN 0] [tA, cN 0] = compareInherentItems (itemMap [cN 1, tA, cN 0]) [tA, cN 0] := by
+  decide
 end Examples
 
 end DI
